@@ -18,6 +18,12 @@ def main():
     emb = embed.Embedding(fam, job.get('emb', 'mid'))
     BT, BU, TS, SE = embed.classes(fam, impl)
     cls = TS if is_set else BT
+    if job.get('subclass'):
+        # a user subclass of the tree class (node sizes of its own); stored by reference, so it must be importable:
+        # it is put into this worker's __main__ module.  Interior nodes are instances of the subclass.
+        cls = type('Sub' + cls.__name__, (cls,), dict(max_leaf_size=job['leaf'], max_internal_size=job['internal']))
+        cls.__module__ = '__main__'
+        setattr(sys.modules['__main__'], cls.__name__, cls)
     old = embed.set_sizes([BT, TS], job['leaf'], job['internal'])
     nk, nv = job['nkeys'], (1 if is_set else 2)
     rng = random.Random(job['seed'])
